@@ -435,7 +435,7 @@ func TestVerifC20(t *testing.T) {
 			args := make([]arg, len(st.slots))
 			anySpecial := false
 			for i, sl := range st.slots {
-				args[i] = genArg(r, sl, st.form == "null")
+				args[i] = genArg(r, sl, true) // NULL is a legal parameter value everywhere a scalar is; literal NULL is its twin
 				anySpecial = anySpecial || args[i].special
 			}
 			paramQ, litQ := st.render(args, false), st.render(args, true)
